@@ -87,9 +87,8 @@ def gen_seq(rng, profile, length, dups=True):
                 i = rng.choice([n, n + 1, -1, -n - 1, n + 5, 1000000, -2147483648, 2147483647, 0])
             keep = 1 if rng.random() < 0.5 else 0
             ops.append(["rmi", i, keep])
-            if 0 <= i < n and not nvar and not (tree and keep and n != 1):
-                if not (tree and not keep and n != 1):
-                    n -= 1
+            if 0 <= i < n and not nvar and not tree:
+                n -= 1
         elif u < padd + 0.33:
             keep = 1 if rng.random() < 0.5 else 0
             ops.append(["rmh", gen_hash(rng), keep])
@@ -120,13 +119,13 @@ class Spec:
         self.ps = []; self.nact = -1; self.nvar = 0; self.tree = tree
 
     def refused(self, keep):
-        return self.nvar != 0 or (len(self.ps) != 1 and keep and self.tree)
+        return self.nvar != 0 or bool(keep and self.tree)
 
     def removed(self, i, keep):
         ps = [list(p) for p in self.ps]
         n = len(ps)
         dec = self.nact - 1 if i < self.nact else self.nact
-        if n == 1:
+        if n == 1 and not self.tree:
             return [], dec
         if keep:
             return ps[:i] + ps[i + 1:], dec
@@ -294,13 +293,7 @@ def _driver(mode):
                     drain()
                 else:
                     if t == "add":
-                        try:
-                            sim.add(m=float(op[2]), x=float(op[2]) * 1e-4, hash=h_py(op[1]))
-                        except RuntimeError as e:
-                            # tree mode: the tree may still reference the slot of a last particle that was removed
-                            # (tree contents are outside this property); the particle is appended all the same
-                            if not (sq["tree"] and "same coordinates" in str(e)):
-                                raise
+                        sim.add(m=float(op[2]), x=float(op[2]) * 1e-4, hash=h_py(op[1]))
                     elif t == "rmi":
                         try:
                             sim.remove(index=op[1], keep_sorted=bool(op[2])); code = 1
@@ -541,6 +534,212 @@ def pylayer_check(ctx, libdir):
         detail = "first mismatching sequence: %s ; library rows: %s" % (json.dumps(seqs[bad[0]]["pyops"])[:900], json.dumps(res[bad[0]]["rows"])[:900])
     ctx.obligation("correspondence:C14 Python container layer (int/negative/str/c_uint32 keys, slices, __setitem__, del item, remove(index,hash), del all) "
                    "== PyLayer.v on %d sequences" % len(seqs), ok_all and not bad, detail)
+
+
+# ----------------------------------------------------------------------------- MERCURIUS / TRACE bookkeeping (coq/C14/Hybrid.v)
+def gen_hcase(rng):
+    kind = rng.choice(["merc", "merc", "trace", "trace", "none"])
+    n0 = rng.randint(1, 6)
+    mode = rng.choice([0, 1, 1, 1]) if kind == "merc" else rng.choice([1, 3, 1, 2, 0]) if kind == "trace" else 0
+    tree = rng.random() < 0.1
+    nvar = 1 if rng.random() < 0.06 else 0
+    nact = rng.choice([-1, -1, rng.randint(0, n0)])
+    nd = rng.choice([0, max(0, n0 - 2), n0, n0, n0 + 2]) if kind == "merc" else 0
+    cap = n0 + rng.choice([0, 1, 3])
+    live = sorted(rng.sample(range(n0), rng.randint(1, n0)))
+    emap = live + [rng.randint(50, 60) for _ in range(cap - len(live))]
+    en = len(live)
+    enact0 = rng.randint(1, en)
+    ks = [1000 + k for k in range(cap * cap)] if kind == "trace" else []
+    ops = []
+    n = n0; cur = list(live); pid = n0 + 1; enact = enact0
+    active = (kind == "merc" and mode == 1) or (kind == "trace" and mode in (1, 3))
+    for _ in range(rng.randint(1, 3)):
+        if rng.random() < 0.6:
+            keep = 1 if rng.random() < 0.5 else 0
+            u = rng.random()
+            if active:
+                # keep the unsigned counters of the library away from wrap-around (the model has no wrap)
+                if cur and u < 0.75:
+                    i = rng.choice(cur)
+                elif len(cur) >= 1 and enact >= 1 and n > 0 and u < 0.85:
+                    i = rng.randrange(n)
+                else:
+                    i = rng.choice([n, -1, n + 3])
+            else:
+                i = rng.randrange(n) if n and u < 0.8 else rng.choice([n, -1])
+            ops.append(["rmi", i, keep])
+            hybrid = kind != "none"
+            ok = 0 <= i < n and not nvar and not (tree and (keep or hybrid))
+            if ok:
+                if active:
+                    if i in cur:
+                        pos = cur.index(i)
+                        if pos < enact: enact -= 1
+                        cur = cur[:pos] + [v - 1 for v in cur[pos + 1:]]
+                    else:
+                        cur = cur[:-1]
+                        if kind == "merc": enact -= 1
+                if not (tree and not keep and not hybrid):
+                    n -= 1
+                if n == 0 or (active and not cur):
+                    break
+        else:
+            if cap >= n + 1 or kind != "trace":         # TRACE: keep current_Ks inside the prefilled allocation (no realloc garbage)
+                ops.append(["add", pid]); pid += 1
+                if active:
+                    cur = cur + [n]
+                    if nact == -1: enact += 1
+                n += 1
+    return {"kind": kind, "mode": mode, "tree": tree, "nvar": nvar, "nact": nact, "n0": n0, "dcrit": [100 + i for i in range(nd)],
+            "cap": cap, "emap": emap, "eN": en, "eNact": enact0, "ks": ks, "ops": ops}
+
+
+def _hybrid_driver():
+    import warnings
+    warnings.simplefilter("ignore")
+    import rebound
+    from rebound import clibrebound as clib
+    want = os.environ.get("C14_LIBDIR")
+    if want and not os.path.realpath(clib._name).startswith(os.path.realpath(want) + os.sep):
+        sys.exit(97)
+    Particle = rebound.Particle
+    libc = ctypes.CDLL(None)
+    libc.malloc.restype = ctypes.c_void_p; libc.malloc.argtypes = [ctypes.c_size_t]
+    clib.reb_simulation_remove_particle.restype = ctypes.c_int
+    clib.reb_simulation_add.restype = None
+    cases = json.load(sys.stdin)
+    out = []
+    for c in cases:
+        sim = rebound.Simulation()
+        if c["tree"]:
+            sim.configure_box(BOX); sim.gravity = "tree"; sim.integrator = "leapfrog"; sim.dt = 1e-9; sim.step()
+        for k in range(c["n0"]):
+            p = Particle(); p.m = float(k + 1); p.x = float(k + 1) * 1e-4
+            clib.reb_simulation_add(ctypes.byref(sim), p)
+        if c["kind"] == "merc":
+            sim.integrator = "mercurius"; ri = sim.ri_mercurius
+        elif c["kind"] == "trace":
+            sim.integrator = "trace"; ri = sim.ri_trace
+        else:
+            ri = None
+        sim.N_active = c["nact"]; sim.N_var = c["nvar"]
+        ids = set(c["dcrit"])
+        if ri is not None:
+            cap = c["cap"]
+            em = libc.malloc(max(1, cap) * 4); ema = (ctypes.c_int * max(1, cap)).from_address(em)
+            for i, v in enumerate(c["emap"]): ema[i] = v
+            ri._encounter_map = ctypes.cast(em, ctypes.POINTER(ctypes.c_int))
+            ri._particles_backup = ctypes.cast(libc.malloc(max(1, cap) * ctypes.sizeof(Particle)), ctypes.POINTER(Particle))
+            ri._N_allocated = cap
+            ri._encounter_N = c["eN"]; ri._encounter_N_active = c["eNact"]
+            if c["kind"] == "merc":
+                ri.mode = c["mode"]
+                nd = len(c["dcrit"])
+                if nd:
+                    dm = libc.malloc(nd * 8); da = (ctypes.c_double * nd).from_address(dm)
+                    for i, v in enumerate(c["dcrit"]): da[i] = float(v)
+                    ri._dcrit = ctypes.cast(dm, ctypes.POINTER(ctypes.c_double))
+                ri._N_allocated_dcrit = nd
+                ri.recalculate_r_crit_this_timestep = 0; ri.recalculate_coordinates_this_timestep = 0
+            else:
+                ri._mode = c["mode"]
+                km = libc.malloc(max(1, cap * cap) * 4); ka = (ctypes.c_int * max(1, cap * cap)).from_address(km)
+                for i, v in enumerate(c["ks"]): ka[i] = v
+                ri._current_Ks = ctypes.cast(km, ctypes.POINTER(ctypes.c_int))
+                ri._particles_backup_kepler = ctypes.cast(libc.malloc(max(1, cap) * ctypes.sizeof(Particle)), ctypes.POINTER(Particle))
+
+        def sgn(u):
+            return u - (1 << 32) if u >= (1 << 31) else u
+
+        def observe(ret):
+            N = sim.N
+            d = []; m = []; en = 0; ena = 0; kk = []; f1 = f2 = False
+            if c["kind"] == "merc":
+                nd = ri._N_allocated_dcrit
+                for i in range(nd):
+                    v = ri._dcrit[i]
+                    d.append(int(v) if (v == v and abs(v) < 1e9 and v == int(v) and int(v) in ids) else -1)
+                f1 = bool(ri.recalculate_r_crit_this_timestep); f2 = bool(ri.recalculate_coordinates_this_timestep)
+            if ri is not None:
+                en = sgn(ri._encounter_N); ena = sgn(ri._encounter_N_active)
+                m = [ri._encounter_map[i] for i in range(max(0, min(en, ri._N_allocated)))]
+                if c["kind"] == "trace":
+                    kk = [ri._current_Ks[i] for i in range(N * N)] if N * N <= ri._N_allocated ** 2 else []
+            return [ret, N, sim.N_active, d, m, en, ena, kk, f1, f2]
+        rows = []
+        for op in c["ops"]:
+            if op[0] == "rmi":
+                ret = clib.reb_simulation_remove_particle(ctypes.byref(sim), ctypes.c_int(op[1]), ctypes.c_int(op[2]))
+            else:
+                p = Particle(); p.m = float(op[1]); p.x = float(op[1]) * 1e-4
+                clib.reb_simulation_add(ctypes.byref(sim), p); ret = 9
+            try:
+                sim.process_messages()
+            except RuntimeError:
+                pass
+            rows.append(observe(ret))
+        fin = [int(sim._particles[i].m) for i in range(sim.N)]
+        sim.N_var = 0
+        out.append({"rows": rows, "final": fin})
+    json.dump(out, sys.stdout)
+
+
+def coq_hcase(c, res):
+    zl = lambda l: "[%s]" % "; ".join("(%d)" % v for v in l)
+    b = lambda v: "true" if v else "false"
+    setup = ["Add (mkP 0 %d false)" % (k + 1) for k in range(c["n0"])] + ["SetNActive (%d)%%Z" % c["nact"], "SetNVar %d%%nat" % c["nvar"]]
+    kind = {"merc": "IMerc", "trace": "ITrace", "none": "INone"}[c["kind"]]
+    hyb = "(mkH %s %d%%nat %s %s %d%%nat (%d) %s false false 0%%nat)" % (kind, c["mode"], zl(c["dcrit"]), zl(c["emap"] if c["kind"] != "none" else []),
+                                                                     c["eN"] if c["kind"] != "none" else 0, c["eNact"] if c["kind"] != "none" else 0, zl(c["ks"]))
+    ops = "; ".join(("HRemove (%d) %s" % (o[1], b(o[2]))) if o[0] == "rmi" else ("HAdd (mkP 0 %d false) garbage" % o[1]) for o in c["ops"])
+    rows = "; ".join("(%d, %d, %d, %s, %s, %d, %d, %s, %s, %s)" % (r[0], r[1], r[2], zl(r[3]), zl(r[4]), r[5], r[6], zl(r[7]), b(r[8]), b(r[9])) for r in res["rows"])
+    return "(%s, [%s], %s, [%s], [%s], [%s])" % (b(c["tree"]), "; ".join(setup), hyb, ops, rows, "; ".join("%d%%N" % v for v in res["final"]))
+
+
+def hybrid_check(ctx, libdir):
+    rng = ctx.rng
+    cases = [gen_hcase(rng) for _ in range(ctx.scale(400, 6000))]
+    for attempt in range(3):
+        env = vlib.pyenv(libdir); env["C14_LIBDIR"] = libdir
+        r = subprocess.run([vlib.PY, os.path.abspath(__file__), "--drive-hybrid"], env=env, input=json.dumps(cases),
+                           capture_output=True, text=True, timeout=900)
+        if r.returncode != 97:
+            break
+        libdir = build_default(ctx)
+    if r.returncode != 0:
+        ctx.obligation("correspondence:C14 hybrid bookkeeping", False, "driver exit %d: %s" % (r.returncode, r.stderr[-1500:]))
+        return
+    res = json.loads(r.stdout)
+    texts = [coq_hcase(c, x) for c, x in zip(cases, res)]
+    ctx.evaluations += sum(len(x["rows"]) for x in res)
+    hdr = ("From Coq Require Import List ZArith NArith Bool.\nFrom RV Require Import C14.Model C14.Hybrid.\n"
+           "Import ListNotations.\nOpen Scope Z_scope.\n")
+    jobs = []; chunk = 100
+    for c0 in range(0, len(texts), chunk):
+        jobs.append(("c14_hy%d" % (c0 // chunk), hdr + "Definition cases : list hcase := [\n" + ";\n".join(texts[c0:c0 + chunk]) +
+                     "].\nEval vm_compute in (bad_h 0 cases).\n"))
+    bad = []; ok_all = True; detail = ""
+    for (name, ok, out), c0 in zip(vlib.coq_eval_many(jobs), range(0, len(texts), chunk)):
+        b = vlib.parse_coq_list_nat(out) if ok else None
+        if b is None:
+            ok_all = False; detail = out[-1200:]
+        else:
+            bad += [c0 + x for x in b]
+    if bad:
+        ok, out = vlib.coq_eval("c14_hydiag", hdr + "Eval vm_compute in (hdiag %s).\n" % texts[bad[0]])
+        detail = "first mismatching case: %s ; library rows %s ; model %s" % (json.dumps(cases[bad[0]])[:700], json.dumps(res[bad[0]])[:500], out[-700:])
+    dist = {}
+    for c in cases:
+        key = "%s|mode=%d|%s" % (c["kind"], c["mode"], ",".join(o[0] for o in c["ops"]))
+        dist[key] = dist.get(key, 0) + 1
+    ctx.extra["hybrid_case_distribution"] = dict(sorted(dist.items())[:40])
+    ctx.obligation("correspondence:C14 MERCURIUS/TRACE bookkeeping of add/remove (dcrit, encounter_map, encounter_N, encounter_N_active, current_Ks, flags) "
+                   "== Hybrid.v on %d cases (state set through ctypes)" % len(cases), ok_all and not bad, detail)
+
+if __name__ == "__main__" and len(sys.argv) >= 2 and sys.argv[1] == "--drive-hybrid":
+    _hybrid_driver()
+    sys.exit(0)
 
 if __name__ == "__main__" and len(sys.argv) >= 2 and sys.argv[1] == "--drive-pylayer":
     _pylayer_driver()
@@ -848,6 +1047,9 @@ def run(ctx):
 
     # ---------------- Python container layer
     pylayer_check(ctx, build_default(ctx))
+
+    # ---------------- MERCURIUS / TRACE bookkeeping vs Hybrid.v
+    hybrid_check(ctx, build_default(ctx))
 
     # ---------------- MERCURIUS bookkeeping scenarios (library only)
     mercurius_scenarios(ctx, build_default(ctx))
